@@ -246,7 +246,51 @@ func c06RefChecks(h *c06run, delivered *gabi.IssueSignatureMessage, attrsGiven [
 	return true, ""
 }
 
+// c06Extreme runs the honest protocol while single reads of crypto/rand.Reader are answered with all ones / all zeros: whatever
+// the random source returns, the honest run has to end with a valid credential (an error or a rejection of the honest
+// counterpart's message is a failed run).
+func c06Extreme(r *mon.Run) {
+	key := world.Fixture("toy512a")
+	pk := key.PK
+	for _, blind := range [][]int{nil, {1}} {
+		extremeDraws(r.Pick(10, 16), func(desc string, hit func() bool) {
+			attrs := []*big.Int{bi(4711), bi(42), bi(7)}
+			for _, b := range blind {
+				attrs[b] = nil
+			}
+			ctx, n1, n2, secret := bi(1), bi(987654321), bi(1234567), bi(1).Lsh(bi(1), 200)
+			var run *world.IssueRun
+			var err, ferr error
+			var icmOK bool
+			pv, stack := mon.Try(func() {
+				run, err = world.Issue(key, ctx, n1, n2, secret, nil, attrs, blind, nil)
+				if err == nil {
+					icmOK = run.Commit.Proofs.Verify([]*gabikeys.PublicKey{pk}, ctx, n1, false, nil)
+					ferr = run.Finish()
+				}
+			})
+			if !hit() {
+				return
+			}
+			d := fmt.Sprintf("blind=%v %s", blind, desc)
+			r.Distinct("extreme-randomness", d)
+			if pv != nil {
+				r.Eval("extreme-randomness", "panic")
+				r.Violation("C06/honest-run-fails/extreme-randomness", fmt.Sprintf("honest issuance panics under an extreme random draw: %v at %s (%s)", pv, mon.PanicSite(stack), d), map[string]any{"case": d})
+				return
+			}
+			good := err == nil && ferr == nil && icmOK && run.Cred != nil && refimpl.CLValid(pk, run.Cred.Signature, run.Cred.Attributes)
+			r.Eval("extreme-randomness", outcome(good, nil))
+			if !good {
+				r.Violation("C06/honest-run-fails/extreme-randomness", fmt.Sprintf("honest issuance does not end with a valid credential under an extreme random draw (issue err=%v, commitment verified=%v, construct err=%v) (%s)", err, icmOK, ferr, d), map[string]any{"case": d})
+			}
+		})
+	}
+	r.FloorFam("extreme-randomness", 10)
+}
+
 func runC06(r *mon.Run) {
+	c06Extreme(r)
 	keys := []string{"toy512a", "toy512z"}
 	if r.Thorough() {
 		keys = []string{"toy512a", "toy512z", "toy384a", "toy256a", "fix1024a", "fix2048a"}
